@@ -788,6 +788,24 @@ class DataFrame:
 
     def copy(self, deep=True): return self.__deepcopy__({})
 
+    def groupby(self, by, sort=True, **k):
+        """Only groupby(<one column of concrete keys>).size(): keys present, sorted, with their row counts."""
+        if not isinstance(by, str) or by not in self.cols or not sort or k:
+            raise ShimGap('DataFrame.groupby other than by one column name')
+        keys = self.cols[by]
+        if builtins.any(is_sym(x) or x is None or not isinstance(x, (str, int)) or (isinstance(x, str) and core._TOK_L in x) for x in keys):
+            raise ShimGap('DataFrame.groupby on symbolic / missing keys')
+        frame = self
+
+        class _GroupBy:
+            def size(self_):
+                ks = sorted(set(keys))
+                return Series([builtins.sum(1 for x in keys if x == q) for q in ks], Index(ks), None, int)
+
+            def __getattr__(self_, n):
+                raise ShimGap('DataFrameGroupBy.' + n)
+        return _GroupBy()
+
     def drop(self, labels=None, axis=0, index=None, columns=None, inplace=False):
         if axis in (1, 'columns') or columns is not None:
             names = columns if columns is not None else labels
